@@ -681,16 +681,23 @@ def upEndL (c : Cfg) (s : S) (k : Nat) : S :=
   | some st => if !st.real || !st.live || !st.counted || !s.urr then s else destroyStream c s k
   | none => s
 
+/-- [proxy7] the label `reset during UpFilter` is enabled: the worker is inside the UpFilter phase of `receive` — it runs the
+sender filters of the response whose head it accepted and has not yet reached the `processError` that ends the phase (in the
+machine: the next `work` is that phase).  An upstream reset raised now (the client stream of a streamed response is still
+registered) is found by that `processError` at `s.phase == UpFilter`. -/
+def upfRunning (s : S) : Bool := s.running && s.phase == .UpFilter
+
 /-- client stream k is reset by its connection / peer: listeners' OnResetStream, then destroy.  A one-way client
 stream (no receiver) is not registered with its connection (xprotocol `streamConn.NewStream`), nothing resets it.
 The reset of a stream whose streamed response was accepted is delivered while the worker waits for the body
-(`bodyWait`); one racing with the running worker between the acceptance of the head and its forwarding is not modelled
-(the label is a no-op then). -/
+(`bodyWait`) or while it runs the sender filters of the response ([proxy7] `upfRunning`: the label `reset during UpFilter`);
+one racing with the running worker in the other phases between the acceptance of the head and its forwarding (the wake-up
+in WaitNotify not yet consumed, UpRecvHeader) is not modelled (the label is a no-op then). -/
 def upResetL (c : Cfg) (s : S) (k : Nat) (reason : Reason) : S :=
   match s.streams[k]? with
   | some st =>
     if !st.real || !st.live || !st.counted then s else
-    if s.urr && !bodyWait s then s else
+    if s.urr && !(bodyWait s || upfRunning s) then s else
     let s := if st.listening then upOnResetStream s reason else s
     destroyStream c s k
   | none => s
